@@ -76,7 +76,17 @@ def generate(tier, rng):
     for key in tg.REGISTRY + tg.BORROWED:
         for e in rng.sample(pool, 40 if big else 12) + pool[-24:]:
             out.append("DT %s %s =?" % (key, hexs(e)))
-    out += iter_twins(out)        # Decoder::array_iter / map_iter (context-free twins of the iterators the Vec / map impls use)
+    tw = iter_twins(out)          # Decoder::array_iter / map_iter (context-free twins of the iterators the Vec / map impls use)
+    out += tw
+    # … and on every strict prefix of a sample of those inputs ("every strict prefix fails with the end-of-input class")
+    seen = set()
+    for l in tw[:: 7 if not big else 2]:
+        t = l.split()
+        hi = 2 if t[0] == "AIT" else 3
+        if len(t) > hi + 1 or t[hi] == "-" or len(t[hi]) > 80 or t[hi] in seen: continue
+        seen.add(t[hi])
+        for k in range(len(t[hi]) // 2):
+            out.append(" ".join(t[:hi] + [t[hi][: 2 * k] or "-"]))
     return out
 
 def nontrivial(line, impl):
